@@ -371,7 +371,7 @@ fn same_names_program(fam: usize, v: usize) -> String {
 }
 
 /// macro-stage code that panics (second element of a one-element array) next to the same macro used legally
-fn macro_stage_program(panics: bool) -> String {
+pub fn macro_stage_program(panics: bool) -> String {
     format!(
         "#stage(macro)\nfn second(arr:[float])->float{{\n  let (h1, rest) = split_head(arr)\n  let (h2, rest2) = split_head(rest)\n  h2\n}}\n#stage(main)\nfn dsp(){{\n  let ans = ${{ second([1.0{}]) |> lift_f }}\n  ans + 40.0\n}}\n",
         if panics { "" } else { ", 2.0" }
